@@ -450,7 +450,7 @@ func (w *world) run(k *Case) (line, impl, oracle string) {
 		rl = append(rl, b.facts)
 	}
 	kind := k.Kind
-	line = fmt.Sprintf("%s K=%s R=%s", kind, c.List(kl), strings.Join(rl, "|"))
+	line = fmt.Sprintf("%s v=2 K=%s R=%s", kind, c.List(kl), strings.Join(rl, "|"))
 	if k.Sched != "" {
 		line += " S=" + k.Sched
 	}
@@ -679,7 +679,7 @@ func main() {
 			defer func() {
 				if r := recover(); r != nil {
 					js, _ := json.Marshal(k)
-					line, impl, oracle = k.Kind+" crashed case=x"+hex.EncodeToString(js), "crash", "crash"
+					line, impl, oracle = k.Kind+" v=2 crashed case=x"+hex.EncodeToString(js), "crash", "crash"
 				}
 			}()
 			line, impl, oracle = w.run(k)
